@@ -469,7 +469,7 @@ pub fn run(tier: &str, seed: u64) -> i32 {
         if tier == "thorough" {
             for c in Curve::ALL {
                 for total in [1025usize, 4097, 8200, 20011] {
-                    for bad in [None, Some(0), Some(total / 2), Some(total - 1), Some(total - 1030)] {
+                    for bad in [None, Some(0), Some(total / 2), Some(total - 1), Some(total.saturating_sub(1030))] {
                         items.push((c, total, bad));
                     }
                 }
